@@ -479,7 +479,7 @@ Proof.
     cbn [enc_obus] in E.
   - injection E as <- <-. exists d, es, []. cbn [mid_pkts dec_run_g length repeat nlen tail_obus].
     rewrite !app_nil_r. rewrite ProofsEnc.seq_add_0 by exact Hs.
-    repeat split; auto. intros H; contradiction.
+    splits; auto.
   - inversion Hok as [|? ? [Ho1 Ho2] Hok']; subst.
     cbn [nlen] in Hc1. rewrite tu_size_cons in Hc2.
     destruct (enc_obu true (0 :: 0 :: o) max (leb_size max) (match t with [] => true | _ => false end) o c)
@@ -490,13 +490,13 @@ Proof.
     cbn [app] in A7.
     destruct t as [|o2 t2].
     + cbn [enc_obus] in E. injection E as <- <-. rewrite app_nil_r.
-      exists d1, es1, tail1. repeat split; auto.
+      exists d1, es1, tail1. splits; auto.
       destruct A5 as [A5|(T1 & T2 & T3 & _)]; [left; exact A5|right; auto].
     + destruct A5 as [[-> A5]|(_ & _ & _ & Hf)]; [|discriminate].
       rewrite app_nil_r in A1. cbn [tail_obus] in A7. rewrite app_nil_r in A7.
       destruct (enc_obus true max (leb_size max) (o2 :: t2) c1) as [fs2 c2| |] eqn:E2; try discriminate.
       injection E as <- <-.
-      destruct (IH c1 es1 d1 (seq_add s (nlen fs1)) (match fs1 with [] => nflag | _ => false end) (comp ++ [o]) fs2 c'
+      destruct (IH c1 es1 d1 (seq_add s (nlen fs1)) (match fs1 with [] => nflag | _ => false end) (comp ++ [o]) fs2 c2
                   E2 (ProofsEnc.seq_add_lt _ _) A1 A5 A2 A3 A4 A6 A7 Hok')
         as (d2 & es2 & tail2 & Hrun2 & B1 & B2 & B3 & B4 & B5 & B6).
       { rewrite nlen_app. cbn [nlen] in *. lia. }
@@ -536,7 +536,7 @@ Proof.
   intros Hs Hv (C1 & C2 & C3 & C4 & C5).
   destruct (enc_obus_ok true max Hmax Hmax2 obus (fresh false)) as (fs & c & E & _ & _ & _).
   { cbn. lia. } { reflexivity. }
-  assert (HD : DOK false d seq) by (apply DOK_of_clean; try assumption; rewrite C3; reflexivity).
+  assert (HD : DOK false d seq) by (apply DOK_of_clean; try assumption; rewrite C3; cbn; assumption).
   assert (Hvw : view false d [] = ([], [])) by (unfold view; rewrite C3; reflexivity).
   destruct Hv as (Hne & Hnn & Hv1 & Hv2).
   destruct (enc_obus_sim obus (fresh false) [] d seq (is_random_access obus) [] fs c E Hs eq_refl eq_refl eq_refl
@@ -549,9 +549,6 @@ Proof.
   assert (Hfl : frep fl es tail).
   { constructor; cbn [fl finalize fbody fw]; auto.
     destruct A3 as [[-> ->]|(T1 & T2 & T3)]; [left; auto|right; auto]. }
-  eexists _, _. rewrite ProofsEnc.mk_pkts_len. split; [reflexivity|].
-  rewrite mk_pkts_snoc by exact Hs. rewrite dec_run_app, Hrun. cbn [dec_run_g].
-  rewrite (dec_fin dfx d1 _ 0 true _ fl es tail Hfl). cbn [fl finalize fz fy fw].
   assert (Hos : es ++ tail_obus tail <> []).
   { destruct A6 as [A6|A6]; [destruct es; [contradiction|discriminate]|].
     rewrite tail_obus_ne by exact A6. destruct es; discriminate. }
@@ -559,9 +556,12 @@ Proof.
     as (d2 & Hd2 & B1 & B2 & _ & B3); [| lia | lia |].
   { destruct A3 as [[-> ->]|(T1 & -> & T3)]; [left; reflexivity|right].
     rewrite tail_obus_ne by exact T1. rewrite nlen_app. cbn [nlen]. lia. }
+  exists (mk_pkts seq (is_random_access obus) (fs ++ [fl])), d2.
+  rewrite ProofsEnc.mk_pkts_len. split; [reflexivity|].
+  rewrite mk_pkts_snoc by exact Hs. rewrite dec_run_app, Hrun. cbn [dec_run_g].
+  rewrite (dec_fin dfx d1 _ 0 true _ fl es tail Hfl). cbn [fl finalize fz fy fw].
   rewrite Hd2. split.
-  - f_equal. rewrite app_length, mid_pkts_length. cbn [length].
-    replace (length fs + 1 - 1)%nat with (length fs) by lia. reflexivity.
+  - rewrite app_length, mid_pkts_length. cbn [length]. replace (length fs + 1 - 1)%nat with (length fs) by lia. reflexivity.
   - split; [exact B1|]. split; [exact B2|exact B3].
 Qed.
 
